@@ -234,3 +234,34 @@ package lint
 //@   pure
 //@   trusted
 //@   ensures result != nil
+
+// ---------------------------------------------------------------------------
+// sources (C13 C14): whatever is declared as a LintSource constant (other than
+// UnknownLintSource) is a known source - the set is extracted from the declarations.
+
+//@ spec knownSource(s LintSource) bool = isConstOf(s, LintSource, UnknownLintSource)
+
+//@ func (*LintSource).FromString [C13]
+//@   requires s != nil
+//@   nopanic
+//@   assigns *s
+//@   ensures implies(knownSource(LintSource(trim(src))), *s == LintSource(trim(src)))
+//@   ensures implies(!knownSource(LintSource(trim(src))), *s == UnknownLintSource)
+
+//@ func (*LintSource).UnmarshalJSON [C13 C14]
+//@   requires s != nil
+//@   nopanic
+//@   assigns \fresh, *s
+//@   ensures implies(isJSONString(data) && knownSource(LintSource(jsonString(data))),
+//@                   result == nil && *s == LintSource(jsonString(data)))
+//@   ensures implies(!isJSONString(data) || !knownSource(LintSource(jsonString(data))), result != nil)
+//@   ensures implies(result == nil, knownSource(*s))
+
+//@ func (*SourceList).FromString [C13]
+//@   requires l != nil
+//@   nopanic
+//@   assigns \fresh, *l
+//@   loop 1 invariant forall(j, 0, k, trim(values[j]) == "" || knownSource(LintSource(trim(values[j]))))
+//@   loop 1 invariant len(values) == splitLen(raw, ",") && forall(j, 0, len(values), values[j] == splitAt(raw, ",", j))
+//@   ensures (result == nil) == forall(j, 0, splitLen(raw, ","),
+//@                trim(splitAt(raw, ",", j)) == "" || knownSource(LintSource(trim(splitAt(raw, ",", j)))))
